@@ -26,8 +26,16 @@ def deref(v):
     return v
 
 
+KEY_EQ_FIELDS = {}      # struct name -> field indices its Eq/Hash impls look at (set by a driver that also checks it against the real impl)
+
+
 def key_eq(a, b):
     a, b = deref(a), deref(b)
+    if isinstance(a, Struct) and isinstance(b, Struct) and a.name == b.name and a.name in KEY_EQ_FIELDS:
+        r = True
+        for i in KEY_EQ_FIELDS[a.name]:
+            r = b_and(r, key_eq(a.fields[i].v, b.fields[i].v))
+        return r
     if isinstance(a, S) and isinstance(b, S):
         return s_eq(a, b)
     if isinstance(a, Int) and isinstance(b, Int):
@@ -439,6 +447,11 @@ def opt_ok_or(ctx, args, ci, dt):
     return ok(o.fields[0].v)
 
 
+def opt_or(ctx, args, ci, dt):
+    o = args[0]
+    return o if o.variant == 1 else args[1]
+
+
 def opt_take(ctx, args, ci, dt):
     c = args[0].cell
     v = c.v
@@ -455,6 +468,27 @@ def opt_map(ctx, args, ci, dt):
     if o.variant == 1:
         return o
     return ok(ctx.call_value(args[1], [o.fields[0].v]))
+
+
+def opt_is_some_and(ctx, args, ci, dt):
+    o = args[0]
+    if o.variant == 0:
+        return False
+    return ctx.call_value(args[1], [o.fields[0].v])
+
+
+def opt_is_none_or(ctx, args, ci, dt):
+    o = args[0]
+    if o.variant == 0:
+        return True
+    return ctx.call_value(args[1], [o.fields[0].v])
+
+
+def opt_map_or(ctx, args, ci, dt):
+    o = args[0]
+    if o.variant == 0:
+        return args[1]
+    return ctx.call_value(args[2], [o.fields[0].v])
 
 
 def res_map_err(ctx, args, ci, dt):
@@ -803,6 +837,9 @@ def hm_get(ctx, args, ci, dt):
     i = map_find(ctx, m, deref(args[1]))
     if i < 0:
         return none()
+    if m.is_set:
+        # HashSet::get answers with the element that is stored
+        return some(Ref(Cell(m.entries[i][0])))
     return some(Ref(m.entries[i][1]))
 
 
@@ -863,6 +900,16 @@ def hm_or_insert(ctx, args, ci, dt):
     if i >= 0:
         return Ref(m.entries[i][1], True)
     c = Cell(args[1])
+    m.entries.append([key, c])
+    return Ref(c, True)
+
+
+def hm_or_insert_with(ctx, args, ci, dt):
+    m, key, raw = args[0].data
+    i = map_find(ctx, m, key)
+    if i >= 0:
+        return Ref(m.entries[i][1], True)
+    c = Cell(ctx.call_value(args[1], []))
     m.entries.append([key, c])
     return Ref(c, True)
 
@@ -1712,7 +1759,11 @@ def install(ctx):
     M['Option::unwrap_or'] = opt_unwrap_or
     M['Option::ok_or'] = opt_ok_or
     M['Option::take'] = opt_take
+    M['Option::or'] = opt_or
     M['Option::map'] = opt_map
+    M['Option::is_some_and'] = opt_is_some_and
+    M['Option::is_none_or'] = opt_is_none_or
+    M['Option::map_or'] = opt_map_or
     M['Result::unwrap'] = opt_unwrap
     M['Result::expect'] = opt_expect
     M['Result::unwrap_or'] = opt_unwrap_or
@@ -1778,6 +1829,9 @@ def install(ctx):
     M['<Vec as IndexMut>::index_mut'] = vec_index
     M['i64::to_le_bytes'] = i64_to_le_bytes
     M['u64::to_le_bytes'] = i64_to_le_bytes
+    for _t in ('u8', 'u16', 'u32', 'i8', 'i16', 'i32', 'u128', 'i128', 'usize', 'isize'):
+        M[_t + '::to_le_bytes'] = i64_to_le_bytes
+        M[_t + '::to_be_bytes'] = i64_to_be_bytes
     M['i64::to_be_bytes'] = i64_to_be_bytes
     M['<usize as AddAssign>::add_assign'] = add_assign
     M['<i64 as AddAssign>::add_assign'] = add_assign
@@ -1808,6 +1862,7 @@ def install(ctx):
         M[t + '::clear'] = hm_clear
     M['Entry::or_default'] = hm_or_default
     M['Entry::or_insert'] = hm_or_insert
+    M['Entry::or_insert_with'] = hm_or_insert_with
     M['serde_json::from_str'] = json_from_str
     M['serde_json::to_string'] = json_to_string
     M['Value::as_object'] = json_as_object
@@ -1844,6 +1899,7 @@ def install(ctx):
     M['str::parse'] = str_parse
     M['str::to_lowercase'] = str_to_lowercase
     M['HashMap::drain'] = hm_drain
+    M['HashSet::drain'] = hm_drain
     M['<SYSTEM_FIELDS as Deref>::deref'] = system_fields
     M['<&String as PartialEq>::eq'] = str_eq
     M['<Range as IntoIterator>::into_iter'] = range_into_iter
